@@ -1145,7 +1145,7 @@ fn c20_instantiate(sim: &mut Sim, rng: &mut Rng, idx: usize, out: &mut Vec<Viola
                     let tx = Tx::new(
                         OWNER,
                         &daddr,
-                        &basset_sei_rewards_dispatcher::msg::ExecuteMsg::UpdateConfig { hub_contract: None, bsei_reward_contract: None, stsei_reward_denom: if rng.chance(1, 4) { Some("uother".into()) } else { None }, bsei_reward_denom: None, krp_keeper_address: if rng.chance(1, 2) { Some(KEEPER.into()) } else { None }, krp_keeper_rate: r },
+                        &basset_sei_rewards_dispatcher::msg::ExecuteMsg::UpdateConfig { hub_contract: None, bsei_reward_contract: None, stsei_reward_denom: if rng.chance(1, 4) { Some(match rng.below(4) { 0 => "uother".to_string(), 1 => sdenom.clone(), 2 => sdenom.to_uppercase(), _ => sdenom.chars().enumerate().map(|(i, c)| if i == 0 { c.to_ascii_uppercase() } else { c }).collect() }) } else { None }, bsei_reward_denom: None, krp_keeper_address: if rng.chance(1, 2) { Some(KEEPER.into()) } else { None }, krp_keeper_rate: r },
                         vec![],
                     );
                     stats.check("c20_fresh_dispatcher_update");
